@@ -161,6 +161,10 @@ class Parser:
         """Parse a bitproto from given string `s`.
         :param filepath: The filepath information if exist.
         """
+        if not s.endswith("\n"):
+            # The grammar ends a comment with a newline: a comment on the very
+            # last line of a text without a trailing newline is fine as well.
+            s += "\n"
         with self.lexer.maintain_filepath(filepath):
             with self.maintain_filepath(filepath):
                 return self.parser.parse(s)
